@@ -15,10 +15,12 @@ import py7zr
 FILE_MODES = [0o644, 0o600, 0o400, 0o755, 0o711, 0o444, 0o664, 0o700, 0o640, 0o777, 0o500]
 DIR_MODES = [0o755, 0o700, 0o750, 0o500, 0o555, 0o711, 0o775, 0o777]
 SMALL = ["a", "b", "c", "d"]
+PREFIXED = ["ab", "a_old", "a.1", "d1", "d10", "b ", "c-"]
 
 
 def tree_strategy():
-    name = st.one_of(st.sampled_from(SMALL), st.sampled_from(SMALL), G.component(10, fs_safe=True))
+    # names that extend a sibling's name (a/ab, d1/d10): string-prefix tests on paths confuse them
+    name = st.one_of(st.sampled_from(SMALL), st.sampled_from(SMALL), st.sampled_from(PREFIXED), G.component(10, fs_safe=True))
     mtime = st.one_of(st.integers(1, 4102444800).map(lambda s: s * 10 ** 9), st.integers(10 ** 9, 4102444800 * 10 ** 9),
                       st.sampled_from([978307200 * 10 ** 9 + 123456700, 2147483648 * 10 ** 9 + 999999900, 86400 * 10 ** 9 + 100]))
     leaf = st.fixed_dictionaries({"kind": st.just("file"), "name": name, "data": G.contents(3000), "mode": st.sampled_from(FILE_MODES), "mtime_ns": mtime})
@@ -183,6 +185,30 @@ class C02(Check):
             x = {"kind": "file", "name": "x", "data": ["hex", "6f75746572"], "mode": 0o640, "mtime_ns": 10 ** 18 + 500}
             return {"kind": "dir", "name": "a", "mode": 0o750, "mtime_ns": 10 ** 18, "children": [b, x]}
 
+        def sib(n1, n2, to_dir):
+            f = {"kind": "file", "name": "f", "data": ["hex", "31"], "mode": 0o644, "mtime_ns": 10 ** 18}
+            g = {"kind": "file", "name": "g", "data": ["hex", "3232"], "mode": 0o600, "mtime_ns": 10 ** 18 + 700}
+            d1 = {"kind": "dir", "name": n1, "mode": 0o755, "mtime_ns": 10 ** 18, "children": [f]}
+            d2 = {"kind": "dir", "name": n2, "mode": 0o750, "mtime_ns": 10 ** 18, "children": [g]}
+            return {"kind": "dir", "name": "root", "mode": 0o755, "mtime_ns": 10 ** 18, "children": [d1, d2]}, to_dir
+
+        i = 100
+        # sibling directories whose names extend one another, a link in one pointing to the other (directory or file in it)
+        for n1, n2 in (("data", "data_old"), ("d1", "d10"), ("a", "ab"), ("ab", "a"), ("x.y", "x")):
+            for to in ("dir", "file"):
+                for deref in (False, True):
+                    for src in ("relative", "absolute"):
+                        i += 1
+                        if not env.mine(i):
+                            continue
+                        root, _ = sib(n1, n2, to)
+                        nodes = flatten(root)
+                        dirs = [p for p, n in nodes if n["kind"] == "dir"]
+                        at = dirs.index(("root", n2))
+                        target = ("root", n1) if to == "dir" else ("root", n1, "f")
+                        ti = [p for p, n in nodes].index(target)
+                        yield {"root": root, "links": [{"at": at, "to": ti, "name": "current"}], "arcname": None, "dereference": deref, "password": None,
+                               "entry": "writeall", "source": src}
         i = 0
         for first in ("b", "z"):
             for src in ("relative", "absolute"):
